@@ -16,9 +16,9 @@ Definition chk_json_partition (lic dep exc : list string) (jl je : list (string 
     if list_string_eqb dep (gen_deprecated jl) then list_string_eqb exc (gen_exceptions je) else false
   else false.
 (* re-running the generator reproduces the committed files byte for byte *)
-Definition chk_files_regenerate (f_lic f_dep f_exc : string) (jl je : list (string * bool)) : bool :=
-  if String.eqb (gen_licenses_file jl) f_lic then
-    if String.eqb (gen_deprecated_file jl) f_dep then String.eqb (gen_exceptions_file je) f_exc else false
+Definition chk_files_regenerate (tl td te : template) (f_lic f_dep f_exc : string) (jl je : list (string * bool)) : bool :=
+  if String.eqb (gen_licenses_file tl jl) f_lic then
+    if String.eqb (gen_deprecated_file td jl) f_dep then String.eqb (gen_exceptions_file te je) f_exc else false
   else false.
 
 (* every listed license id is accepted as a one-term expression (and denotes a license node);
